@@ -48,7 +48,7 @@ REQUIRED_THEOREMS = ["decode_encode", "no_seven_ones_on_wire", "stuff_error_dete
                      # the receive chain under clock drift (cell streams of 3/4/5 samples per bit)
                      "rx_pipeline_decodes_encode_drift", "stuff_error_detected_cycle_drift", "blockD", "front_blocksD",
                      "back_vblocks", "track_of_drift", "trackable_of_drift", "lockD", "floor_cells_driftOk",
-                     "rx_drift_nominal"]
+                     "rx_drift_nominal", "rx_packets_drift"]
 RULE = ("tx: packets of 1..70 random / all-ones / stuffing-boundary bytes, tx_data garbage between packets, random "
         "inter-packet gaps, the producer holds each byte until tx_ready; the D+/D- waveform is compared bit by bit "
         "with the Lean `encode` and with an independent Python encoder.  txc/txp: the cycle-level Lean model of the "
